@@ -2199,3 +2199,504 @@ def oor_shards(tier):
 SHARD_SOURCES.extend([kalph_shards, oor_shards])
 RUNNERS.update({"kalph": run_kalph, "oor": run_oor})
 REPLAYERS.update({"kalph": replay_kalph, "oor": replay_oor})
+
+
+# ---------------------------------------------------------------------------
+# alias: objects must not share (or modify) the caller's mutable arguments
+# ---------------------------------------------------------------------------
+# Each scenario builds an object from freshly made arguments, snapshots everything observable, mutates ONE of the
+# caller's arguments in place and re-observes: the snapshot must not move and must equal the snapshot of a twin built
+# from private copies; the call itself must leave every argument as it was passed.  Arguments that the unchanged
+# tree already shares with the caller are listed in ALIAS_UNSPECIFIED (counted, not reported).
+ALIAS_REFS = [(0, 1, 1, 0, 1, 0, 0, 0), (1, 1, 0, 0, 1, 0)]
+ALIAS_UNSPECIFIED = {
+    # (site, argument): why
+}
+
+
+def _safe(fn):
+    try:
+        return fn()
+    except Exception as e:  # noqa: BLE001
+        return "raised " + type(e).__name__
+
+
+def _tolist(x):
+    if isinstance(x, np.ndarray):
+        return x.tolist()
+    if isinstance(x, (tuple, list)):
+        return [_tolist(e) for e in x]
+    if isinstance(x, (np.generic,)):
+        return x.item()
+    return x
+
+
+def snap_alphabet(ka):
+    sp = ka.spacing
+    return {"spacing": None if sp is None else sp.tolist(), "k": int(ka.k), "len": len(ka),
+            "kmer_array_length": [_safe(lambda L=L: int(ka.kmer_array_length(L))) for L in range(0, 9)],
+            "create_kmers": [_safe(lambda s=s: ka.create_kmers(np.array(s, dtype=np.uint8)).tolist()) for s in ALIAS_REFS]}
+
+
+class AliasEnv:
+    """fixed query set shared by the table scenarios of one shard"""
+
+    def __init__(self, pal):
+        self.alph, self.mk = make_alphabet(2, pal)
+        self.qcodes = all_seqs(2, 0, 5)
+        self.queries = [self.mk(s) for s in self.qcodes]
+        self.qmask = mask_array(5, (1,))
+
+
+def snap_table(t, ae):
+    ka = t.kmer_alphabet
+    N = len(ka)
+    out = {"alphabet": snap_alphabet(ka), "len": len(t), "k": int(t.k), "n_buckets": int(getattr(t, "n_buckets", 0)),
+           "entries": _safe(lambda: _entries(t, N)), "get_kmers": _safe(lambda: t.get_kmers().tolist()),
+           "count": _safe(lambda: t.count(np.arange(N)).tolist()),
+           "match": [_safe(lambda q=q: t.match(q).tolist()) for q in ae.queries],
+           "match_masked": _safe(lambda: t.match(ae.queries[-1], ignore_mask=ae.qmask.copy()).tolist()),
+           "match_kmer_selection": _safe(lambda: t.match_kmer_selection(np.arange(N, dtype=np.uint32), np.arange(N)).tolist())}
+    return out
+
+
+def table_outputs(t):
+    """arrays handed out by the object: zeroing them must not change the object"""
+    ka = t.kmer_alphabet
+    outs = [t.get_kmers(), t.count(np.arange(len(ka)))]
+    outs += [t[c] for c in range(len(ka))]
+    if ka.spacing is not None:
+        outs.append(ka.spacing)
+    return outs
+
+
+def _arg_class(x):
+    if isinstance(x, np.ndarray):
+        return str(x.dtype)
+    return type(x).__name__
+
+
+def _numeric_list(x):
+    return isinstance(x, list) and all(isinstance(e, (int, bool, np.integer)) for e in x)
+
+
+def alias_mutations(x):
+    if isinstance(x, np.ndarray):
+        n = x.shape[0] if x.ndim else 0
+        if not n:
+            return []
+        idx = list(range(n)) if n <= 4 else [0, n // 2, n - 1]
+        return ["elem%d" % i for i in idx] + ["reverse", "sort", "zeros"]
+    if isinstance(x, list):
+        if not x:
+            return []
+        if _numeric_list(x):
+            idx = list(range(len(x))) if len(x) <= 4 else [0, len(x) // 2, len(x) - 1]
+            return ["elem%d" % i for i in idx] + ["reverse", "sort", "zeros", "clear"]
+        return ["reverse", "pop", "clear"]
+    if isinstance(x, dict):
+        return ["popfirst", "clear"] if x else []
+    return []
+
+
+def alias_mutate(x, m):
+    if isinstance(x, np.ndarray):
+        if m.startswith("elem"):
+            i = int(m[4:])
+            if x.dtype == np.bool_:
+                x[i] = ~x[i]
+            else:
+                x[i] += 1
+        elif m == "reverse":
+            x[...] = x[::-1].copy()
+        elif m == "sort":
+            x.sort(axis=0)
+        elif m == "zeros":
+            x[...] = 0
+        return
+    if isinstance(x, list):
+        if m.startswith("elem"):
+            i = int(m[4:])
+            x[i] = (not x[i]) if isinstance(x[i], bool) else x[i] + 1
+        elif m == "reverse":
+            x.reverse()
+        elif m == "sort":
+            x.sort()
+        elif m == "zeros":
+            x[:] = [0] * len(x)
+        elif m == "pop":
+            x.pop()
+        elif m == "clear":
+            del x[:]
+        return
+    if isinstance(x, dict):
+        if m == "popfirst":
+            x.pop(next(iter(x)))
+        else:
+            x.clear()
+
+
+def alias_same(a, b):
+    if isinstance(a, np.ndarray) or isinstance(b, np.ndarray):
+        return (isinstance(a, np.ndarray) and isinstance(b, np.ndarray) and a.dtype == b.dtype and a.shape == b.shape
+                and bool(np.array_equal(a, b)) and a.flags.writeable == b.flags.writeable)
+    if isinstance(a, (list, tuple)):
+        return type(a) is type(b) and len(a) == len(b) and all(alias_same(x, y) for x, y in zip(a, b))
+    if isinstance(a, dict):
+        return isinstance(b, dict) and list(a) == list(b) and all(alias_same(a[k], b[k]) for k in a)
+    if hasattr(a, "code") and hasattr(b, "code"):
+        return alias_same(a.code, b.code)
+    if a is None or isinstance(a, (int, float, str, bool)):
+        return a == b
+    return True  # immutable library objects (tables, alphabets)
+
+
+def alias_repr(x):
+    if isinstance(x, np.ndarray):
+        return {"dtype": str(x.dtype), "values": x.tolist()}
+    if isinstance(x, (list, tuple)):
+        return [alias_repr(e) for e in x]
+    if isinstance(x, dict):
+        return {str(k): alias_repr(v) for k, v in x.items()}
+    if hasattr(x, "code"):
+        return {"code": x.code.tolist()}
+    return repr(x)[:60]
+
+
+def spacing_value(sp, order, form):
+    o = sorted(sp)
+    if order == "reversed":
+        o = o[::-1]
+    if form == "list":
+        return list(o)
+    return np.array(o, dtype=form)
+
+
+SPACING_FORMS = ("int64", "int32", "uint8", "list")
+
+
+def alias_scenarios(tier):
+    """-> list of JSON-able scenario descriptors"""
+    out = []
+    models2, models3 = spacing_models(2, 2)[1:], spacing_models(3, 2)[1:]
+    # 1. KmerAlphabet(spacing=X): every model x order x form
+    for k, models in ((2, models2), (3, models3)):
+        for sp in models:
+            for order in ("sorted", "reversed"):
+                for form in SPACING_FORMS:
+                    out.append({"sc": "KmerAlphabet", "k": k, "sp": sp, "order": order, "form": form})
+    # 2. table constructors taking a spacing model: every model of k=2, listed models of k=3
+    some3 = [[0, 1, 3], [1, 2, 4]] if tier == "quick" else models3
+    for tk in ("K", "B3"):
+        for k, models in ((2, models2), (3, some3)):
+            for sp in models:
+                for order in ("sorted", "reversed"):
+                    for form in ("int64", "int32", "list") if tier == "quick" else SPACING_FORMS:
+                        out.append({"sc": "from_sequences", "tk": tk, "k": k, "sp": sp, "order": order, "form": form, "args": ["spacing"]})
+                        out.append({"sc": "from_kmers", "tk": tk, "k": k, "sp": sp, "order": order, "form": form, "args": ["spacing"]})
+        # 3. every other mutable argument, continuous and one spaced model
+        for sp in (None, [0, 2]):
+            base = {"tk": tk, "k": 2, "sp": sp, "order": "sorted", "form": "int64"}
+            out.append(dict(base, sc="from_sequences", args=["ref_ids", "ignore_masks", "mask0", "sequences", "code0", "outputs"]))
+            out.append(dict(base, sc="from_kmers", args=["kmers", "kmers0", "ref_ids", "masks", "mask0", "outputs"]))
+            out.append(dict(base, sc="from_kmer_selection", args=["positions", "pos0", "kmers", "kmers0", "ref_ids", "outputs"]))
+            if tk == "K":
+                for dt in ("uint32", "int64"):
+                    out.append(dict(base, sc="from_positions", dtype=dt, args=["kmer_positions", "posarr", "outputs"]))
+            out.append(dict(base, sc="from_tables", args=["tables", "outputs"]))
+            for call in ("match", "match_kmer_selection", "count", "match_table"):
+                out.append(dict(base, sc="call_" + call))
+    # 4. alphabet / selectors / permutations / similarity rule
+    for sp in (None, [0, 2]):
+        out.append({"sc": "call_create_kmers", "k": 2, "sp": sp})
+    for name in ("MinimizerSelector", "SyncmerSelector", "CachedSyncmerSelector", "MincodeSelector"):
+        for perm in ("none", "freq_cyc", "random"):
+            out.append({"sc": "call_select_from_kmers", "selector": name, "perm": perm})
+            out.append({"sc": "call_select", "selector": name, "perm": perm})
+    for name in ("SyncmerSelector", "CachedSyncmerSelector"):
+        for form in ("int64", "int32", "list"):
+            out.append({"sc": "selector_offset", "selector": name, "form": form})
+    for form in ("int64", "int32", "list"):
+        out.append({"sc": "FrequencyPermutation", "form": form})
+    for perm in ("freq_cyc", "random"):
+        out.append({"sc": "call_permute", "perm": perm})
+    for form in ("int32", "int64"):
+        out.append({"sc": "ScoreThresholdRule", "form": form})
+    return out
+
+
+def alias_build(desc, ae, pal):
+    """-> (site, fresh() -> args, build(args) -> object, observe(object) -> snapshot, outputs(object) -> arrays | None)"""
+    import biotite.sequence.align as align
+
+    sc = desc["sc"]
+    alph, mk = ae.alph, ae.mk
+    k = desc.get("k", 2)
+    sp = desc.get("sp")
+    tk = desc.get("tk", "K")
+    T = table_class(tk)
+    kw = nb_kw(tk)
+    cname = cls_name(tk)
+
+    def spacing():
+        return None if sp is None else spacing_value(sp, desc.get("order", "sorted"), desc.get("form", "int64"))
+
+    def kalph_of(a):
+        return align.KmerAlphabet(alph, k, a.get("spacing"))
+
+    offs = offsets(k, sp)
+    kmodel = [model_kmers(s, 2, offs) for s in ALIAS_REFS]
+
+    if sc == "KmerAlphabet":
+        return ("KmerAlphabet.__init__", lambda: {"spacing": spacing()}, kalph_of, snap_alphabet, None)
+
+    if sc == "from_sequences":
+        def fresh():
+            seqs = [mk(s) for s in ALIAS_REFS]
+            masks = [mask_array(len(ALIAS_REFS[0]), (2,)), None]
+            return {"spacing": spacing(), "ref_ids": np.array([7, 3], dtype=np.int64), "ignore_masks": masks, "mask0": masks[0],
+                    "sequences": seqs, "code0": seqs[0].code}
+
+        def build(a):
+            return T.from_sequences(k, a["sequences"], ref_ids=a["ref_ids"], ignore_masks=a["ignore_masks"],
+                                    **({"spacing": a["spacing"]} if sp is not None else {}), **kw)
+        return (cname + ".from_sequences", fresh, build, lambda t: snap_table(t, ae), table_outputs)
+
+    if sc == "from_kmers":
+        def fresh():
+            km = [np.array(x, dtype=np.int64) for x in kmodel]
+            masks = [np.array([i != 1 for i in range(len(kmodel[0]))]), None]
+            return {"spacing": spacing(), "kmers": km, "kmers0": km[0], "ref_ids": np.array([7, 3], dtype=np.int64),
+                    "masks": masks, "mask0": masks[0]}
+
+        def build(a):
+            return T.from_kmers(kalph_of(a), a["kmers"], ref_ids=a["ref_ids"], masks=a["masks"], **kw)
+        return (cname + ".from_kmers", fresh, build, lambda t: snap_table(t, ae), table_outputs)
+
+    if sc == "from_kmer_selection":
+        def fresh():
+            pos = [np.arange(len(x), dtype=np.uint32)[::2].copy() for x in kmodel]
+            km = [np.array(x, dtype=np.int64)[::2].copy() for x in kmodel]
+            return {"spacing": spacing(), "positions": pos, "pos0": pos[0], "kmers": km, "kmers0": km[0],
+                    "ref_ids": np.array([7, 3], dtype=np.int64)}
+
+        def build(a):
+            return T.from_kmer_selection(kalph_of(a), a["positions"], a["kmers"], ref_ids=a["ref_ids"], **kw)
+        return (cname + ".from_kmer_selection", fresh, build, lambda t: snap_table(t, ae), table_outputs)
+
+    if sc == "from_positions":
+        def fresh():
+            d = {}
+            for j, x in enumerate(kmodel):
+                for p, c in enumerate(x):
+                    d.setdefault(c, []).append((j + 3, p))
+            d = {c: np.array(v, dtype=desc["dtype"]) for c, v in sorted(d.items())}
+            first = next(iter(d))
+            return {"spacing": spacing(), "kmer_positions": d, "posarr": d[first]}
+
+        def build(a):
+            return T.from_positions(kalph_of(a), a["kmer_positions"])
+        return (cname + ".from_positions", fresh, build, lambda t: snap_table(t, ae), table_outputs)
+
+    if sc == "from_tables":
+        def fresh():
+            ka = align.KmerAlphabet(alph, k, spacing())
+            return {"tables": [T.from_kmers(ka, [np.array(x, dtype=np.int64)], ref_ids=[j + 3], **kw) for j, x in enumerate(kmodel)]}
+
+        return (cname + ".from_tables", fresh, lambda a: T.from_tables(a["tables"]), lambda t: snap_table(t, ae), table_outputs)
+
+    if sc.startswith("call_") and sc[5:] in ("match", "match_kmer_selection", "count", "match_table"):
+        ka0 = align.KmerAlphabet(alph, k, spacing())
+        table = T.from_kmers(ka0, [np.array(x, dtype=np.int64) for x in kmodel], **kw)
+        call = sc[5:]
+        if call == "match":
+            def fresh():
+                q = mk(ALIAS_REFS[1] + ALIAS_REFS[0])
+                return {"code": q.code, "sequence": q, "ignore_mask": mask_array(len(q.code), (3,))}
+            return (cname + ".match", fresh, lambda a: table.match(a["sequence"], ignore_mask=a["ignore_mask"]), _tolist, None)
+        if call == "match_kmer_selection":
+            def fresh():
+                return {"positions": np.arange(len(kmodel[1]), dtype=np.uint32), "kmers": np.array(kmodel[1], dtype=np.int64)}
+            return (cname + ".match_kmer_selection", fresh, lambda a: table.match_kmer_selection(a["positions"], a["kmers"]), _tolist, None)
+        if call == "count":
+            return (cname + ".count", lambda: {"kmers": np.array(kmodel[1], dtype=np.int64)}, lambda a: table.count(a["kmers"]), _tolist, None)
+        other = T.from_kmers(ka0, [np.array(kmodel[1], dtype=np.int64)], ref_ids=[9], **kw)
+        return (cname + ".match_table", lambda: {}, lambda a: table.match_table(other), _tolist, None)
+
+    if sc == "call_create_kmers":
+        ka0 = align.KmerAlphabet(alph, k, spacing())
+        return ("KmerAlphabet.create_kmers", lambda: {"seq_code": np.array(ALIAS_REFS[0], dtype=np.uint8)},
+                lambda a: ka0.create_kmers(a["seq_code"]), _tolist, None)
+
+    # ---- selectors / permutations / similarity rule (alphabet 2, k = 3, s = 2)
+    ka3 = align.KmerAlphabet(alph, 3)
+    ka2 = align.KmerAlphabet(alph, 2)
+    long_seq = ALIAS_REFS[0] + ALIAS_REFS[1]
+    km3 = model_kmers(long_seq, 2, [0, 1, 2])
+
+    def selector(name, perm, offset=(0, -1)):
+        if name == "MinimizerSelector":
+            return align.MinimizerSelector(ka3, 3, perm_impl(perm, ka3, 2, 3, 8, pal))
+        if name == "MincodeSelector":
+            return align.MincodeSelector(ka3, 2, perm_impl(perm, ka3, 2, 3, 8, pal))
+        cls = align.SyncmerSelector if name == "SyncmerSelector" else align.CachedSyncmerSelector
+        return cls(alph, 3, 2, perm_impl(perm, ka2, 2, 2, 4, pal), offset=offset)
+
+    if sc == "call_select_from_kmers":
+        sel = selector(desc["selector"], desc["perm"])
+        return (desc["selector"] + ".select_from_kmers", lambda: {"kmers": np.array(km3, dtype=np.int64)},
+                lambda a: sel.select_from_kmers(a["kmers"]), _tolist, None)
+    if sc == "call_select":
+        sel = selector(desc["selector"], desc["perm"])
+
+        def fresh():
+            q = mk(long_seq)
+            return {"sequence": q, "code": q.code}
+        return (desc["selector"] + ".select", fresh, lambda a: sel.select(a["sequence"]), _tolist, None)
+    if sc == "selector_offset":
+        def fresh():
+            o = [0, -1]
+            return {"offset": o if desc["form"] == "list" else np.array(o, dtype=desc["form"])}
+
+        def obs(sel):
+            return [_tolist(sel.select(mk(long_seq))), _tolist(sel.select_from_kmers(np.array(km3, dtype=np.int64)))]
+        return (desc["selector"] + ".__init__", fresh, lambda a: selector(desc["selector"], "none", a["offset"]), obs, None)
+    if sc == "FrequencyPermutation":
+        def fresh():
+            c = [(x * 3 + 1) % 8 for x in range(8)]
+            return {"counts": c if desc["form"] == "list" else np.array(c, dtype=desc["form"])}
+
+        def obs(p):
+            return [p.permute(np.arange(8)).tolist(), int(p.min), int(p.max)]
+        return ("FrequencyPermutation.__init__", fresh, lambda a: align.FrequencyPermutation(ka3, a["counts"]), obs, None)
+    if sc == "call_permute":
+        p = perm_impl(desc["perm"], ka3, 2, 3, 8, pal)
+        return (type(p).__name__ + ".permute", lambda: {"kmers": np.array(km3, dtype=np.int64)}, lambda a: p.permute(a["kmers"]),
+                _tolist, None)
+    if sc == "ScoreThresholdRule":
+        def fresh():
+            return {"matrix": np.array(sim_matrix("offdiag", 2), dtype=desc["form"])}
+
+        def build(a):
+            return align.ScoreThresholdRule(align.SubstitutionMatrix(alph, alph, a["matrix"]), 0)
+
+        def obs(rule):
+            return [rule.similar_kmers(ka2, c).tolist() for c in range(4)]
+        return ("ScoreThresholdRule.__init__", fresh, build, obs, None)
+    raise ValueError(sc)
+
+
+def check_alias_case(ctx, ae, desc, arg, mut):
+    """one scenario, one argument, one in-place mutation (arg == 'outputs': zero every array the object hands out)"""
+    site, fresh, build, observe, outputs = alias_build(desc, ae, ctx.seed)
+    case = dict(desc, kind="alias", arg=arg, mut=mut)
+    args, private, pristine = fresh(), fresh(), fresh()
+    try:
+        obj = build(args)
+        twin = build(private)
+    except Exception as e:  # noqa: BLE001
+        ctx.violation("%s|raised_%s|alias_scenario" % (site, type(e).__name__), "legal construction raised: %s" % str(e)[:200],
+                      case, "object", type(e).__name__)
+        return
+    # 1. the call left its arguments alone
+    for name in args:
+        if not alias_same(args[name], pristine[name]):
+            key = (site, name)
+            if key in ALIAS_UNSPECIFIED:
+                ctx.count("unspecified_argument_modified")
+                continue
+            ctx.violation("%s|argument_modified|%s:%s" % (site, name, _arg_class(pristine[name])),
+                          "the call changed the caller's argument in place", case, alias_repr(pristine[name]), alias_repr(args[name]))
+            return
+    before = observe(obj)
+    tw = observe(twin)
+    if before != tw:
+        ctx.violation("%s|differs_from_twin|%s" % (site, arg), "two objects built from equal arguments differ", case, tw, before)
+        return
+    # 2. mutate the caller's object, re-observe
+    if arg == "outputs":
+        outs = outputs(obj)
+        for o in outs:
+            try:
+                o[...] = 0
+            except ValueError:
+                pass  # read-only output: fine
+        changed = bool(outs)
+        cls = "returned_arrays"
+    else:
+        x = args[arg]
+        alias_mutate(x, mut)
+        changed = not alias_same(x, pristine[arg])
+        cls = "%s:%s" % (arg, _arg_class(pristine[arg]))
+    after = observe(obj)
+    ctx.ev(1, 1 if changed else 0)
+    ctx.outcome((site, json.dumps(before, sort_keys=True, default=str)[:2000]))
+    if after != before:
+        if (site, arg) in ALIAS_UNSPECIFIED:
+            ctx.count("unspecified_shared_argument")
+            return
+        diff = [k for k in before if before[k] != after[k]] if isinstance(before, dict) else "result"
+        ctx.violation("%s|shares_argument|%s" % (site, cls), "an in-place change of the caller's %s after the call changed the "
+                      "object (views: %s)" % (arg, diff), case,
+                      expected={k: before[k] for k in diff} if isinstance(before, dict) else before,
+                      observed={k: after[k] for k in diff} if isinstance(before, dict) else after)
+        return
+    if len(ctx.samples) < 2 and changed and arg == "spacing":
+        ctx.sample(case)
+
+
+def alias_case_list(desc, ae, pal):
+    """-> [(arg, mutation)] of one scenario"""
+    _, fresh, _, _, outputs = alias_build(desc, ae, pal)
+    args = fresh()
+    names = desc.get("args") or list(args)
+    out = []
+    for name in names:
+        if name == "outputs":
+            if outputs is not None:
+                out.append(("outputs", "zeros"))
+            continue
+        for m in alias_mutations(args[name]):
+            out.append((name, m))
+    if not out:
+        out.append(("none", "none"))
+    return out
+
+
+def alias_shards(tier):
+    n = 8
+    return [{"kind": "alias", "part": p, "parts": n} for p in range(n)]
+
+
+def run_alias(shard, ctx):
+    ae = AliasEnv(ctx.seed)
+    for i, desc in enumerate(alias_scenarios(ctx.tier)):
+        if i % shard["parts"] != shard["part"]:
+            continue
+        for arg, mut in alias_case_list(desc, ae, ctx.seed):
+            case = dict(desc, kind="alias", arg=arg, mut=mut)
+            if not ctx.journal(case):
+                continue
+            if arg == "none":
+                # a call without mutable arguments: still compare with the twin
+                arg, mut = "outputs", "zeros"
+                site, fresh, build, observe, outputs = alias_build(desc, ae, ctx.seed)
+                a, b = observe(build(fresh())), observe(build(fresh()))
+                ctx.ev(1, 0)
+                if a != b:
+                    ctx.violation("%s|differs_from_twin|none" % site, "two equal calls differ", case, a, b)
+                continue
+            check_alias_case(ctx, ae, desc, arg, mut)
+
+
+def replay_alias(case, ctx):
+    ae = AliasEnv(ctx.seed)
+    desc = {k: v for k, v in case.items() if k not in ("kind", "arg", "mut")}
+    if case["arg"] == "none":
+        return
+    check_alias_case(ctx, ae, desc, case["arg"], case["mut"])
+
+
+SHARD_SOURCES.append(alias_shards)
+RUNNERS["alias"] = run_alias
+REPLAYERS["alias"] = replay_alias
